@@ -1915,7 +1915,7 @@ func (h *elH) opAck(drop bool) {
 				aba = true
 			}
 		}
-		if (aba || o.restored) && os.Getenv("VF_EL_DELIVER_ABA") != "" {
+		if (aba || o.restored || o.truncBelow) && os.Getenv("VF_EL_DELIVER_ABA") != "" {
 			// demonstration switch (findings/E8.md): deliver it anyway
 			h.label("aba-delayed-ack-delivered")
 			aba = false
@@ -1932,6 +1932,15 @@ func (h *elH) opAck(drop bool) {
 			// a restore and its last pair re-entered the log afterwards.
 			h.st.Count("excluded-delayed-ack-across-restore", 1)
 			h.logf("ack of Update stable=%d/t%d withheld (matches again after a restore, excluded)", o.stableIdx, o.stableTerm)
+			drop = true
+		} else if o.truncBelow {
+			// the pair is back and the store content is still identical, but
+			// honouring the acknowledgement skips the re-save that would have
+			// told the LogReader about the truncation: the reader (and the
+			// store) keep the stale suffix above it, which becomes the log's
+			// answer once the in-memory window is empty. Same unreachable shape.
+			h.st.Count("excluded-delayed-ack-rematch-after-truncation", 1)
+			h.logf("ack of Update stable=%d/t%d withheld (matches again after a truncation, excluded)", o.stableIdx, o.stableTerm)
 			drop = true
 		}
 	}
